@@ -388,7 +388,8 @@ def dump_graph(module: str, cfg: str, *, workers: int | str = 1, args: list[str]
 # Simulation behaviours (-simulate file=...)
 # --------------------------------------------------------------------------
 _RE_SIM_STATE = re.compile(
-    r"\\\* <(?P<head>[^>]*)>\s*\nSTATE_(?P<n>\d+) ==\s*\n(?P<body>(?:.*\n)*?)(?=\n\\\*|\n=====|\Z)"
+    r"\\\* <(?P<head>.*?) line \d+, col \d+ to line \d+, col \d+ of module \w+>\s*\nSTATE_(?P<n>\d+) ==\s*\n"
+    r"(?P<body>(?:.*\n)*?)(?=\n\\\*|\n=====|\Z)"
 )
 
 
@@ -414,8 +415,7 @@ def simulate(module: str, cfg: str, *, num: int, depth: int, seed: int,
 def parse_sim_file(text: str) -> list[dict[str, Any]]:
     out = []
     for m in _RE_SIM_STATE.finditer(text):
-        head = m.group("head").strip()
-        name = head.split(" line ")[0].strip()
+        name = m.group("head").strip()
         mm = re.match(r"(\w+)(?:\((.*)\))?$", name)
         action, argtxt = (mm.group(1), mm.group(2)) if mm else (name, None)
         a: list[Any] = []
